@@ -72,6 +72,7 @@ def r_vrh(ctx, model):
 def r_compliances(ctx, model):
     ev, calc, vol = setup(ctx, model)
     del calc.attrs["_compliances"]
+    calc.attrs["config"] = DictV({"elast": DictV({"settings": DictV({"symmetry": DictV({})})})})
     ref = f"{CALC}._calculate_compliances"
     f = model.func(ref)
     w = model.where(ref, f)
@@ -101,6 +102,79 @@ def r_compliances(ctx, model):
     ctx.check(not bad and len(comp.d) == 21, "compliances stored under canonical keys", w,
               expected="_compliances[c_(i+1,j+1)] = inv(M)[.., i, j] for i <= j", found="; ".join(bad[:6]) or "21 keys as required",
               explanation="a compliance component is stored under the wrong key or not at all", key="compliances.store")
+
+
+def r_compliances_systems(ctx, model):
+    """whatever the configured crystal system, the stored compliances are the inverse of the full symmetric stiffness:
+    identity of rational functions tested by folding with exact rational arithmetic at two generic points per system,
+    the stiffness having exactly the non-vanishing components the system's relation file allows"""
+    import random
+    from ..fillmodel import parse_relations, relation_matrix, SYMS21
+    from ..report import REPO
+    ref = f"{CALC}._calculate_compliances"
+    f = model.func(ref)
+    w = model.where(ref, f)
+    systems = [None] + sorted(p.name for p in (REPO / "cij" / "data" / "constraints").iterdir() if p.is_file())
+    rnd = random.Random(20261004)
+    n = 0
+    for system in systems:
+        if system is None or system == "triclinic":
+            free = None
+        else:
+            R = relation_matrix(parse_relations((REPO / "cij" / "data" / "constraints" / system).read_text()))
+            ns = R.nullspace()
+        for trial in range(2):
+            n += 1
+            if system is None or system == "triclinic":
+                vals = {k: sp.Rational(rnd.randint(-40, 40), 7) for k in SYMS21}
+            else:
+                vec = sum((sp.Rational(rnd.randint(1, 60), rnd.randint(3, 11)) * v for v in ns), sp.zeros(21, 1))
+                vals = {k: vec[i] for i, k in enumerate(SYMS21) if vec[i] != 0}
+            for k in ("c11", "c22", "c33", "c44", "c55", "c66"):        # make it comfortably invertible
+                if k in vals:
+                    vals[k] = abs(vals[k]) + 500
+            # re-impose the relations after strengthening the diagonal: project by averaging related diagonal entries
+            if system not in (None, "triclinic"):
+                fixed = dict(vals)
+                sol = sp.Matrix([fixed.get(k, 0) for k in SYMS21])
+                # least-change projection onto the null space (exact): x - R^T (R R^T)^-1 R x
+                Rm = R
+                if Rm.rows:
+                    Rr = Rm.T.columnspace()
+                    Rm2 = sp.Matrix.hstack(*Rr).T if Rr else Rm
+                    sol = sol - Rm2.T * (Rm2 * Rm2.T).inv() * Rm2 * sol
+                vals = {k: sol[i] for i, k in enumerate(SYMS21) if sol[i] != 0}
+            keys = sorted(vals)
+            ev, calc, vol = setup(ctx, model, keys=keys)
+            calc.attrs["modulus_adiabatic"] = DictV({KeyObj(k): vals[k] for k in keys})
+            calc.attrs["config"] = DictV({"elast": DictV({"settings": DictV({"symmetry": DictV({"system": system} if system else {})})})})
+            del calc.attrs["_compliances"]
+            try:
+                ev.call_def(f, model.mods["cij.core.calculator"], ref, [calc], {})
+            except RaisedV as e:
+                ctx.violation(f"compliances.{system}.raises", w, "compliances are computed", f"raises {e.exc_name}", f"_calculate_compliances raises {e.exc_name} for system {system}")
+                continue
+            M = sp.zeros(6, 6)
+            for k in keys:
+                i, j = int(k[1]) - 1, int(k[2]) - 1
+                M[i, j] = M[j, i] = vals[k]
+            S = M.inv()
+            comp = calc.attrs.get("_compliances")
+            bad = []
+            for i in range(6):
+                for j in range(i, 6):
+                    kk = KeyObj(f"c{i + 1}{j + 1}")
+                    got = comp.d.get(kk) if isinstance(comp, DictV) else None
+                    if S[i, j] == 0:
+                        if got is not None and sp.sympify(got) != 0:
+                            bad.append(f"s{i + 1}{j + 1} = {got}, exact 0")
+                    elif got is None or sp.simplify(sp.sympify(got) - S[i, j]) != 0:
+                        bad.append(f"s{i + 1}{j + 1} = {got}, exact {S[i, j]}")
+            ctx.check(not bad, f"system {system}, generic point {trial + 1}: stored compliances = inverse of the full stiffness", w,
+                      expected="S = C^-1 on all 21 components", found="; ".join(bad[:3]) or "exact",
+                      explanation=f"for crystal system {system} the reported compliances are not the inverse of the reported stiffness "
+                                  f"(a system-specific shortcut drops a coupling that this system does not forbid)", key=f"compliances.{system}")
+    ctx.extra["compliance_points"] = n
 
 
 def r_getattr(ctx, model):
@@ -190,6 +264,7 @@ def r_velocities(ctx, model):
 RULES = [
     ("R07.1-6", "six Voigt/Reuss/Hill averages equal the forms generated from the tensor definitions", r_vrh),
     ("R07.7", "compliances: symmetric assembly of the adiabatic tensor, inversion, canonical-key storage", r_compliances),
+    ("R07.7b", "compliances = inverse of the full stiffness for every configured crystal system (exact arithmetic at generic points)", r_compliances_systems),
     ("R07.8", "__getattr__ decision table over the finite name space", r_getattr),
     ("R07.9", "velocities and mass by quantity calculus (km/s, kg)", r_velocities),
 ]
